@@ -266,6 +266,7 @@ pub fn run_case(ctx: &Ctx, sz: &Sizes, case: u64) {
     let rounds = r.range(2, 5) as usize;
     let allow_multi = is_os() && sz.sndbuf < 100_000;
     let real_signals = is_os() && r.chance(250);
+    let deep = r.chance(300);
     let use_multi = allow_multi && !real_signals && r.chance(600);
 
     let (spec_tx, spec_rx) = mpsc::channel::<RoundSpec>();
@@ -285,7 +286,10 @@ pub fn run_case(ctx: &Ctx, sz: &Sizes, case: u64) {
             let mut next_tag = 0u32;
             let mut modes = Vec::new();
             for round in 0..rounds {
-                let quiesce = r.chance(500);
+                // a deep burst: far more tiny messages on one member than one wake-up of any
+                // reasonable "fairness bound" would read, then silence on that member
+                let deep_round = deep && round == 0;
+                let quiesce = deep_round || r.chance(500);
                 modes.push(if quiesce { "quiesce" } else { "concurrent" });
                 // new members this round
                 let want_new = if round == 0 { nmembers_target.div_ceil(2).max(1) } else { (nmembers_target / (2 * (rounds - 1)).max(1)).min(nmembers_target.saturating_sub(members.len())) };
@@ -331,13 +335,16 @@ pub fn run_case(ctx: &Ctx, sz: &Sizes, case: u64) {
                     counter: Arc<AtomicUsize>,
                 }
                 let mut jobs: Vec<Job> = Vec::new();
+                let mut deep_given = false;
                 for m in members.iter_mut() {
                     let newly = m.pending_rx.is_some();
                     let mut owed = if newly { m.queued_before_add } else { 0 };
                     if let Some(p) = m.primary.as_ref() {
-                        if r.chance(750) {
-                            let k = r.range(1, if quiesce { 10 } else { 25 }) as usize;
-                            let lens = gen_lens(&mut r, &sz, k, quiesce, use_multi);
+                        let deep_here = deep_round && !deep_given;
+                        if deep_here || r.chance(750) {
+                            let k = if deep_here { r.range(70, 220) } else { r.range(1, if quiesce { 10 } else { 25 }) } as usize;
+                            let lens = if deep_here { (0..k).map(|_| r.below(9) as usize).collect() } else { gen_lens(&mut r, &sz, k, quiesce, use_multi) };
+                            deep_given = deep_given || deep_here;
                             let close = r.chance(200);
                             let tx = if close {
                                 m.primary.take().unwrap()
@@ -506,7 +513,10 @@ pub fn run_case(ctx: &Ctx, sz: &Sizes, case: u64) {
     let w2 = waiting.clone();
     let res = watch("c06-selector", 20_000, &move || w2.load(Ordering::SeqCst), move || selector_loop(case, spec_rx, done_tx, sel_tid));
     let base = json!({"case": case, "variant": variant(), "sndbuf": sz.sndbuf, "target_members": nmembers_target, "rounds": rounds,
-        "real_signals": real_signals, "multi_packet": use_multi});
+        "real_signals": real_signals, "multi_packet": use_multi, "deep_burst": deep});
+    if deep {
+        rep.stat("deep_burst_scenarios", 1);
+    }
     match res {
         Watch::Done(()) => {
             let _ = driver.join();
